@@ -46,7 +46,7 @@ class IndexReplacer(MultiFunction):
                 fi.append((j.count(), d))
 
         fi = unique_sorted_indices(sorted(fi))
-        free_indices, index_dimensions = zip(*fi)
+        free_indices, index_dimensions = zip(*fi) if fi else ((), ())
 
         return Zero(
             shape=o.ufl_shape,
